@@ -51,18 +51,43 @@ Definition proc_event (e : event) : bool :=
 
 Definition C09_resend_on_connect_statement : Prop :=
   forall es s, run step init es = Some s ->
-  (* the connect future completes exactly when the processor turns to the store *)
+  (* an accepted CONNACK only moves the state to Connacked; the processor turns to the store *)
   (forall sp rc s', k_ppc (k s) = PConnack sp rc -> step s (EHid HProc) = Some s' ->
-     k_cs (k s) = StConnecting -> rc = 0 -> k_ppc (k s') = PAll) /\
+     k_cs (k s) = StConnecting -> rc = 0 -> k_ppc (k s') = PAll sp /\ k_cs (k s') = StConnacked) /\
   (* AllPackets: the list is the outgoing store in first-save order, all of it is due *)
-  (forall e s', k_ppc (k s) = PAll -> proc_event e = true -> step s e = Some s' ->
+  (forall sp e s', k_ppc (k s) = PAll sp -> proc_event e = true -> step s e = Some s' ->
      exists r, e = EAll Outgoing r /\
        (forall l, r = Some l -> l = store_all (s_out (sess s)) /\
-          k_ppc (k s') = match l with [] => PRecv false | _ => PResend l end)) /\
+          k_ppc (k s') = match l with [] => PConnDone sp None | _ => PResend sp l end)) /\
   (* while packets are due the processor's only move is to send the next one, DUP set on a PUBLISH *)
-  (forall q rest e s', k_ppc (k s) = PResend (q :: rest) -> proc_event e = true -> step s e = Some s' ->
+  (forall sp q rest e s', k_ppc (k s) = PResend sp (q :: rest) -> proc_event e = true -> step s e = Some s' ->
      exists r, e = ETx (set_dup q) true r /\
-       (r = Ok -> k_ppc (k s') = match rest with [] => PRecv false | _ => PResend rest end)).
+       (r = Ok -> k_ppc (k s') = match rest with [] => PConnDone sp None | _ => PResend sp rest end)) /\
+  (* only after the last of them: Connacked -> Connected, and the connect future completes *)
+  (forall sp s', k_ppc (k s) = PConnDone sp None -> step s (EHid HProc) = Some s' ->
+     k_ppc (k s') = PRecv false /\
+     (k_cs (k s) = StConnacked -> k_cs (k s') = StConnected)).
+
+(* resend_before_new: from the accepted CONNACK until the last listed packet has been handed to the
+   connection the client is not Connected; whatever anybody does in that window, nothing is written to
+   the connection but the due retransmission (and the pinger's PINGREQ), and nothing is saved into the
+   outgoing store — so no new request overtakes a retransmission and none can be listed a second time *)
+Definition resend_window (p : ppc) : bool :=
+  match p with PAll _ | PResend _ _ => true | _ => false end.
+
+Definition C09_resend_before_new_statement : Prop :=
+  forall es s, run step init es = Some s -> resend_window (k_ppc (k s)) = true ->
+  k_cs (k s) <> StConnected /\
+  forall e s', step s e = Some s' ->
+    (forall p a r, e = ETx p a r ->
+       p = Pingreq \/ exists sp q rest, k_ppc (k s) = PResend sp (q :: rest) /\ p = set_dup q) /\
+    (forall p r, e <> ESave Outgoing p r) /\
+    (* a Publish / Subscribe / Unsubscribe / Disconnect call that gets the mutex now is refused *)
+    (forall c, e = EHid (HAcq c) ->
+       match amap_get (k_pending (k s)) c with
+       | Some (CReq _) | Some (CDisconnect _) => k_api (k s') = None
+       | _ => True
+       end).
 
 (* a future completes successfully only on an acknowledgement carrying its packet id that was
    received after the request was stored (or was the packet being processed at that moment);
